@@ -22,7 +22,7 @@ fn spec(t: Tier) -> Spec {
     Spec {
         id: "C06",
         level: "exploration",
-        rule: format!("grid: RLIMIT_STACK {:?} x environment {:?} x argument length {:?} x options {:?}; the number of arguments is derived so that the input is >= 2.5x the kernel's budget for that stack limit (max(stack/4, 128 KiB) capped at 6 MiB), i.e. up to several million one-byte arguments, so every grid point crosses the limit at least twice; the real xargs binary runs the recorder child (count + rolling hash per invocation): exit status must be 0, no 'Argument list too long', and the recorder must have seen every argument exactly once in order with the initial arguments first. Single-argument slice: one argument of 131071 / 131072 / 200000 / 3000000 bytes among short ones: either everything is delivered, or xargs exits 1 with a diagnostic, never starts the recorder with that argument, and what was delivered is a prefix of the input. {}. evaluation = one grid point; non-trivial = run with >= 2 invocations", STACKS.iter().map(|s| s.0).collect::<Vec<_>>(), ENVS, LENS, OPTS, t.pick("quick: 2 stack limits x 2 environments x 4 lengths x 2 options + 5 extra points (-s with 1- and 2-byte arguments, large stack limits)", "thorough: the full grid")),
+        rule: format!("grid: RLIMIT_STACK {:?} x environment {:?} x argument length {:?} x options {:?}; the number of arguments is derived so that the input is >= 2.5x the kernel's budget for that stack limit (max(stack/4, 128 KiB) capped at 6 MiB), i.e. up to several million one-byte arguments, so every grid point crosses the limit at least twice; the real xargs binary runs the recorder child (count + rolling hash per invocation): exit status must be 0, no 'Argument list too long', and the recorder must have seen every argument exactly once in order with the initial arguments first. -I slice: one input line of 10..200000 bytes among short ones substituted into templates with 1..6 occurrences of {{}}: every invocation accepted by exec with exactly the substituted arguments, or the line refused with exit 1 before anything runs with it. Single-argument slice: one argument of 131071 / 131072 / 200000 / 3000000 bytes among short ones: either everything is delivered, or xargs exits 1 with a diagnostic, never starts the recorder with that argument, and what was delivered is a prefix of the input. {}. evaluation = one grid point; non-trivial = run with >= 2 invocations", STACKS.iter().map(|s| s.0).collect::<Vec<_>>(), ENVS, LENS, OPTS, t.pick("quick: 2 stack limits x 2 environments x 4 lengths x 2 options + 5 extra points (-s with 1- and 2-byte arguments, large stack limits)", "thorough: the full grid")),
         bound: json!({"stacks": STACKS.iter().map(|s| s.0).collect::<Vec<_>>(), "envs": ENVS, "lengths": LENS, "options": OPTS, "budgets_crossed": 2.5}),
         assumptions: vec!["Linux execve accounting (strings + pointers against max(stack/4,128KiB) capped at 6 MiB; 128 KiB per string) is what the kernel of this sandbox enforces; it is observed, not modelled: only the derived argument count uses the formula".into()],
         shards: 0,
@@ -269,6 +269,22 @@ fn run(ctx: &mut Ctx) {
         }
         ctx.rep.traces_validated += 1;
     }
+    // -I slice
+    let templs: [&[&str]; 4] = [&["{}"], &["{}{}"], &["{}", "{}", "{}"], &["a{}b", "x", "{}{}{}{}"]];
+    for s in ctx.tier.pick(vec![0usize, 2], vec![0, 1, 2, 3, 4]) {
+        for len in ctx.tier.pick(vec![1000usize, 60_000, 100_000], vec![10, 1000, 30_000, 43_000, 60_000, 100_000, 131_071, 200_000]) {
+            for (ti, t) in templs.iter().enumerate() {
+                job += 1;
+                if !ctx.mine(job) {
+                    continue;
+                }
+                ctx.progress(job);
+                if let Some((sig, detail)) = replace_point(ctx, STACKS[s], len, t) {
+                    ctx.rep.violation(&sig, detail, json!({"prop":"C06","replace":true,"stack":s,"linelen":len,"templ":ti}));
+                }
+            }
+        }
+    }
     // single-argument slice
     for s in ctx.tier.pick(vec![0usize, 2], vec![0, 1, 2, 3, 4]) {
         for big in [131071usize, 131072, 200000, 3_000_000] {
@@ -287,8 +303,74 @@ fn run(ctx: &mut Ctx) {
     }
 }
 
+/// -I slice: one line of `len` bytes substituted into templates holding several {}: either every
+/// invocation is accepted by exec and the recorder sees the substituted arguments, or xargs refuses
+/// the line with exit 1 before running anything with it.
+fn replace_point(ctx: &mut Ctx, stack: (&str, u64), len: usize, templ: &[&str]) -> Option<(String, String)> {
+    let sbx = ctx.sbx.clone();
+    let vrec = crate::engine::self_bin_dir().join("vrec");
+    let log = sbx.join(".mc-vrec.log");
+    let _ = std::fs::remove_file(&log);
+    let input = sbx.join("input");
+    let line = vec![b'q'; len];
+    let mut data = b"short\n".to_vec();
+    data.extend_from_slice(&line);
+    data.extend_from_slice(b"\nlast\n");
+    std::fs::write(&input, &data).ok()?;
+    let mut args: Vec<OsString> = vec!["-a".into(), input.clone().into(), "-I".into(), "{}".into(), vrec.clone().into(), log.clone().into()];
+    args.extend(templ.iter().map(|t| OsString::from(*t)));
+    let aos: Vec<&OsStr> = args.iter().map(|a| a.as_os_str()).collect();
+    let o = binrun::run(&binrun::repo_bin("xargs"), &aos, &sbx, &binrun::Opts { env: vec![("VREC_MODE".into(), "count".into())], stack: Some(stack.1), timeout_s: 120, ..Default::default() });
+    let _ = std::fs::remove_file(&input);
+    let err = String::from_utf8_lossy(&o.err).to_string();
+    let recs = std::fs::read(&log).ok().and_then(|b| vreclog::parse_count(&b).ok()).unwrap_or_default();
+    ctx.rep.evaluations += 1;
+    ctx.rep.nontrivial += 1;
+    let detail = format!("xargs -I{{}} vrec LOG {:?} over lines of 5, {len} and 4 bytes, RLIMIT_STACK {}\nexit {:?}; {} invocations recorded; stderr {:?}", templ, stack.0, o.code, recs.len(), err.chars().take(200).collect::<String>());
+    if o.timed_out || o.signal.is_some() || o.code == Some(101) {
+        return Some(("C06 xargs crashed / hung".into(), detail));
+    }
+    if err.contains("rgument list too long") || o.code == Some(126) {
+        return Some(("C06 exec refused a command line xargs built: Argument list too long — -I substitution not measured".into(), detail));
+    }
+    let expect = |l: &[u8]| -> (u64, usize) {
+        let mut h: u64 = 0xcbf29ce484222325;
+        let mut bytes = 0;
+        for t in templ {
+            let a = String::from_utf8_lossy(l).to_string();
+            let s = t.replace("{}", &a).into_bytes();
+            fnv_add(&mut h, &s);
+            bytes += s.len();
+        }
+        (h, bytes)
+    };
+    let lines: [&[u8]; 3] = [b"short", &line, b"last"];
+    for (k, r) in recs.iter().enumerate() {
+        let (h, bytes) = expect(lines.get(k).copied().unwrap_or(b""));
+        if k >= 3 || r.hash != h || r.bytes != bytes {
+            return Some(("C06 -I invocation does not carry the substituted arguments".into(), format!("{detail}\ninvocation #{k}: {} bytes", r.bytes)));
+        }
+    }
+    match o.code {
+        Some(0) if recs.len() == 3 => ctx.rep.count("replace_lines_all_delivered", 1),
+        Some(1) if recs.len() == 1 && !err.trim().is_empty() => ctx.rep.count("replace_line_refused_with_exit_1", 1),
+        _ => return Some((format!("C06 -I with a long line: exit {:?} with {} invocations (expected all three delivered, or exit 1 after the first)", o.code, recs.len()), detail)),
+    }
+    None
+}
+
 fn replay(case: &Value, ctx: &mut Ctx) -> Option<String> {
     let g = |k: &str| case[k].as_u64().map(|x| x as usize);
+    if case["replace"].as_bool().unwrap_or(false) {
+        let templs: [&[&str]; 4] = [&["{}"], &["{}{}"], &["{}", "{}", "{}"], &["a{}b", "x", "{}{}{}{}"]];
+        return match replace_point(ctx, STACKS[g("stack")?], g("linelen")?, templs[g("templ")?]) {
+            Some((sig, detail)) => {
+                ctx.rep.violation(&sig, detail, case.clone());
+                Some(sig)
+            }
+            None => None,
+        };
+    }
     let big = case["big"].as_array().map(|a| (a[0].as_u64().unwrap_or(0) as usize, a[1].as_u64().unwrap_or(0) as usize));
     let p = Point { stack: STACKS[g("stack")?], env: ENVS[g("env")?], len: LENS[g("len")?], opt: OPTS[g("opt")?], big, nargs_override: big.map(|_| 12) };
     match run_point(ctx, &p) {
